@@ -98,3 +98,69 @@ theorem schedB_sound' {c : Dag} {L : List (NodeId × Op)} (h : DagInv c) (hb : s
 
 end Metrics
 end Graphiq
+
+/-! ## a computable canonical schedule: the specification as a function of the circuit's wires
+
+  `compPos` is the position function of Proofs/Topo.lean (number of proper ancestors, ties broken by the index in the node
+  list) computed with the model's breadth-first `ancestors` (proved to meet the networkx specification on every circuit
+  satisfying DagInv).  `compSched c` sorts the operation nodes by it and attaches the wired operations read off
+  `reg_gate_history`: a computable function of the circuit's observable wires and node operations only. -/
+namespace Graphiq
+namespace Metrics
+open Dag Relation
+
+/-- number of proper ancestors (model's breadth-first search), ties broken by the index in the node list -/
+def compPos (c : Dag) (a : NodeId) : Nat :=
+  (c.nodeIds.filter (fun x => (c.ancestors a).contains x)).length * (c.nodeIds.length + 1) + c.nodeIds.idxOf a
+
+theorem compPos_eq_topoPos {c : Dag} {P : Paths} (g : Good c P) : compPos c = topoPos c := by
+  funext a
+  unfold compPos topoPos ancCount
+  congr 2
+  apply congrArg
+  apply List.filter_congr
+  intro x _
+  have := ancestors_spec g a x
+  by_cases h : TransGen c.E x a
+  · simp [h, this.mpr h]
+  · have h' : x ∉ c.ancestors a := fun hm => h (this.mp hm)
+    simp [h, h']
+
+/-- the canonical schedule: operation nodes sorted by `compPos`, operations as wired on the wires `reg_gate_history` returns -/
+def compSched (c : Dag) : List (NodeId × Op) := schedOf c (wireOf c) (compPos c)
+
+theorem compSched_eq {c : Dag} {P : Paths} (g : Good c P) : compSched c = schedOf c P (topoPos c) := by
+  unfold compSched
+  rw [compPos_eq_topoPos g]
+  have : wireOf c = P := by funext r; exact wireOf_eq g.inv r
+  rw [this]
+
+/-- **the canonical schedule is a schedule** of every circuit satisfying DagInv -/
+theorem compSched_sched {c : Dag} {P : Paths} (g : Good c P) : Sched c P (compSched c) := by
+  rw [compSched_eq g]
+  have hlin : LinearExt c (topoPos c) := by
+    intro e he
+    have hE : c.E e.src e.dst := ⟨e, he, rfl, rfl⟩
+    exact topoPos_lt (E_nodes g.inv hE).1 (ancCount_lt g hE)
+  have hinj : ∀ a ∈ c.nodeIds, ∀ b ∈ c.nodeIds, topoPos c a = topoPos c b → a = b := by
+    intro a ha b hb heq
+    have hia : c.nodeIds.idxOf a < c.nodeIds.length := List.idxOf_lt_length_of_mem ha
+    have hib : c.nodeIds.idxOf b < c.nodeIds.length := List.idxOf_lt_length_of_mem hb
+    rcases Nat.lt_trichotomy (ancCount c a) (ancCount c b) with hlt | hEq | hgt
+    · have := topoPos_lt ha hlt; omega
+    · unfold topoPos at heq
+      rw [hEq] at heq
+      have hidx : c.nodeIds.idxOf a = c.nodeIds.idxOf b := by omega
+      have e1 := List.getElem_idxOf hia
+      have e2 := List.getElem_idxOf hib
+      rw [← e1, ← e2]
+      simp only [hidx]
+    · have := topoPos_lt hb hgt; omega
+  exact schedOf_sched g hlin hinj
+
+/-- **the operation list of the circuit**, as a computable function of its wires and node operations: the wired operations
+    in the canonical topological order -/
+def wireOpList (c : Dag) : List Op := (compSched c).map (·.2)
+
+end Metrics
+end Graphiq
